@@ -16,7 +16,7 @@ ENGINES = [
      "kind_free_text": "async_mutex on a manually polled io_context vs FIFO model, exhaustive short sequences + random, ASan+UBSan"},
     {"name": "codec_probe", "path": "src/probes/codec_probe.cpp", "serves_properties": ["C17", "C18", "C19"],
      "kind_free_text": "library encoders/decoders vs independent reference codec (src/ref), guard-page placement of hostile packets, ASan+UBSan"},
-    {"name": "simcheck", "path": "src/sim", "serves_properties": ["C01", "C02", "C03", "C04", "C05", "C06", "C07", "C08", "C09", "C10", "C11", "C12", "C13", "C14", "C15", "C16", "C19"],
+    {"name": "simcheck", "path": "src/sim", "serves_properties": ["C01", "C02", "C03", "C04", "C05", "C06", "C07", "C08", "C09", "C10", "C11", "C12", "C13", "C14", "C15", "C16", "C17", "C19"],
      "kind_free_text": "the real mqtt_client instantiated on a simulated stream in virtual time (timer/clock token interposition, no library edit beyond the resolve hook), a protocol-level broker model on the reference codec, fault plans, crash-point and idle-point sweeps, event-history monitors; clang ASan+UBSan"},
 ]
 
@@ -72,6 +72,7 @@ CLAIMS.update({
 for _p, _extra in {"C08": "allocator unit level + wire-history uniqueness and a full exhaustion scenario through the real client",
                    "C11": "lock unit level + online single-flight monitor in the simulated transport",
                    "C16": "validator unit level + public API refusals/acceptances on a real, unconnected client",
+                   "C17": "encoder unit level + every packet written by the real client in simulator workloads decoded in situ",
                    "C19": "decoder unit level + whole-client behaviour under hostile byte streams in four phases and three chunkings"}.items():
     c = CLAIMS[_p]
     CLAIMS[_p] = (c[0], c[1] + "; " + _extra, c[2].replace("; unit level (allocator) in this round, live-exchange uniqueness is added by the simulator part", "").replace("; unit level (the lock) in this round, single-flight connection attempts are added by the simulator part", "").replace("; unit level (validators) in this round", "").replace("; unit level (decoders) in this round", "") + "; " + SIM_NOTE, c[3] + " + " + SIM_TECH, c[4] + "+simcheck")
